@@ -507,7 +507,24 @@ func (c *Ctx) positionTracking(info *types.Info) {
 		ev := &ssaEval{c: c, bind: map[ssa.Value]sv{}, mem: map[string]sv{}}
 		var reqs []req
 		ev.noInline = func(f *ssa.Function) bool {
-			return f == numFn || (f.Signature.Recv() == nil && f.Signature.Params().Len() == 2 && f.Signature.Results().Len() == 1)
+			// opaque: the number encoder, and whatever else appends to the buffer (a function that
+			// takes the buffer and returns it, e.g. the operator writer); a predicate or an
+			// arithmetic helper is part of the pass and is evaluated in place
+			if f == numFn {
+				return true
+			}
+			if f.Signature.Recv() != nil || f.Signature.Params().Len() != 2 || f.Signature.Results().Len() != 1 {
+				return false
+			}
+			isBytes := func(t types.Type) bool {
+				sl, ok := t.Underlying().(*types.Slice)
+				if !ok {
+					return false
+				}
+				bt, ok := sl.Elem().Underlying().(*types.Basic)
+				return ok && bt.Kind() == types.Uint8
+			}
+			return isBytes(f.Signature.Results().At(0).Type())
 		}
 		ev.load = func(ld *ssa.UnOp, addr sv) (sv, bool) {
 			a := addr.s
